@@ -156,7 +156,7 @@ int main(int argc, char **argv)
 	for (a = 4; a < argc; a++) {
 		int n = atoi(argv[a]);
 		unsigned long long ilv = FNV0, bd = FNV0, id = FNV0;
-		int switches = 0, nev, nth, distinct_tids = 0;
+		int switches = 0, nev, nev_total, nth, distinct_tids = 0;
 		dgrp_t g;
 
 		round_no = a - 4;
@@ -168,6 +168,7 @@ int main(int argc, char **argv)
 
 		nev = __atomic_load_n(&nevents, __ATOMIC_RELAXED);
 		nth = __atomic_load_n(&nthreads, __ATOMIC_RELAXED);
+		nev_total = nev;	/* every critical section is counted, the first MAXEVENTS are kept */
 		if (nev > MAXEVENTS) nev = MAXEVENTS;
 		printf("round n=%d ret=%s tail=0x%x threads=%d", n, errname(r),
 		       fs->flags & (EXT2_FLAG_BBITMAP_TAIL_PROBLEM |
@@ -190,7 +191,7 @@ int main(int argc, char **argv)
 			}
 			free(seen);
 		}
-		printf(" events=%d ilv=%016llx switches=%d active=%d", nev, ilv, switches,
+		printf(" events=%d ilv=%016llx switches=%d active=%d", nev_total, ilv, switches,
 		       distinct_tids);
 		if (r == 0 && fs->block_map && fs->inode_map) {
 			blk64_t blk_itr = EXT2FS_B2C(fs, fs->super->s_first_data_block);
